@@ -210,6 +210,27 @@ def check_dict(run, model, d, kind):
     bad = walk(d, out, '$')
     if bad:
         run.violation(case, bad, signature={'op': 'dict', 'd': vlib.canon(d)[:200]})
+        return
+    # whole-tree correspondence with Model/C20_Dict.to_lbc (the object of the C20_dict_* theorems)
+    mod = model.call('dict_to_lbc', v=jv_enc(d))
+    impl = jv_enc(out)
+    run.compare('C20.dict_to_lbc', case, impl, mod)
+    if dict_values_to_lbc(out) != out:
+        run.violation(case, 'dict_values_to_lbc applied twice differs from applied once',
+                      signature={'op': 'dict2', 'd': vlib.canon(d)[:200]})
+
+
+def jv_enc(v):
+    """the wire form of a nested API value for the model (see ocaml/c20_driver.ml)"""
+    if isinstance(v, bool):
+        return ['b', v]
+    if isinstance(v, int):
+        return ['i', str(v)]
+    if isinstance(v, dict):
+        return ['d', [[str(k).encode().hex(), jv_enc(x)] for k, x in v.items()]]
+    if isinstance(v, str):
+        return ['s', v.encode().hex()]
+    return ['o', repr(v).encode().hex()]
 
 
 # ------------------------------------------------------------------ callers: where amounts enter and leave the daemon
